@@ -210,6 +210,24 @@ func modeC13(cutsFile string, thorough bool) {
 		runStream(in2, lst, 5, nil, "random", slow, rng, 2)
 	}
 	in2.close()
+	// an answer that fits a frame (65530 octets) until the proxy adds its OPT: the response must be cut to
+	// 65535 octets with TC, and the frames after it must still be found where the length prefixes say
+	in3 := mk("c13-huge", 0)
+	huge := func(i int) string {
+		if i == 1 { // the second query of a connection carries an OPT
+			return "r0t60d0fH"
+		}
+		return "r0t60d4"
+	}
+	for _, lst := range lsts {
+		if lst == "gnet" || thorough {
+			runStream(in3, lst, 4, nil, "random", huge, rng, 100)
+		}
+		if lst != "gnet" || thorough {
+			runStream(in3, lst, 3, nil, "one", huge, rng, 100)
+		}
+	}
+	in3.close()
 	_ = io.EOF
 	_ = dns.TypeA
 }
